@@ -57,8 +57,8 @@ LEAVES = {
     "KDRandomErasing": [(dict(p=0.5, mode="pixelwise"), ["T3"]), (dict(p=1.0, mode="channelwise", max_count=3), ["T3b"])],
     "KDRandomGaussianBlurPIL": [(dict(p=0.5, sigma=(0.1, 2.0)), ["PIL"])],
     "KDRandomGaussianBlurTV": [(dict(p=0.5, kernel_size=3, sigma=(0.1, 2.0)), ["T3"])],
-    "KDRandomGrayscale": [(dict(p=0.5), ["T3", "PIL"])],
-    "KDRandomHorizontalFlip": [(dict(), ["T3", "PIL"])],
+    "KDRandomGrayscale": [(dict(p=0.5), ["T3", "PIL"]), (dict(p=0.0), ["T3"]), (dict(p=1.0), ["T3"])],
+    "KDRandomHorizontalFlip": [(dict(), ["T3", "PIL"]), (dict(p=1.0), ["T3"])],
     "KDRandomResizedCrop": [(dict(size=4), ["T3", "PILb"])],
     "KDRandomRotation": [(dict(degrees=30), ["T3", "PIL"])],
     "KDRandomSolarize": [(dict(p=0.5, threshold=0.5), ["T3"]), (dict(p=0.5, threshold=128), ["PIL"])],
